@@ -142,6 +142,32 @@ pub fn c05(tier: Tier) -> i32 {
             }
         }
     }
+    // index literals of every size in the canonical array update
+    let upd: Vec<_> = ds.iter().filter(|d| d.name == "assign_update_array_value").cloned().collect();
+    let mut idx_items = Vec::new();
+    for k in [0u32, 1, 8, 31, 32, 63, 64, 65, 127, 128, 255, 256] {
+        for delta in [-1i32, 0, 1] {
+            let lit = dec_add(&pow2_dec(k), delta);
+            if lit.is_empty() {
+                continue;
+            }
+            for (kind, op, prec, lc, rc) in [("Add", "+", 5u8, 5u8, 4u8), ("Multiply", "*", 4, 4, 3), ("BitwiseXor", "^", 8, 8, 7), ("ShiftLeft", "<<", 6, 6, 5)] {
+                let e = bin("Assign", "=", 14, 13, 14, subscript(var("arr"), num(&lit)), bin(kind, op, prec, lc, rc, subscript(var("arr"), num(&lit)), var("q")));
+                let f = file(vec![pragma(PRAGMA), contract("C", vec![func("f", &["public"], vec![expr_stmt(e)])])]);
+                let (t, o) = render_l1(&f.toks);
+                idx_items.push((format!("index:2^{}{:+}:{}", k, delta, kind), t, o));
+                // a different index on the right-hand side must not be reported
+                let other = dec_add(&lit, 1);
+                let e = bin("Assign", "=", 14, 13, 14, subscript(var("arr"), num(&lit)), bin(kind, op, prec, lc, rc, subscript(var("arr"), num(&other)), var("q")));
+                let f = file(vec![pragma(PRAGMA), contract("C", vec![func("f", &["public"], vec![expr_stmt(e)])])]);
+                let (t, o) = render_l1(&f.toks);
+                idx_items.push((format!("index-other:2^{}{:+}:{}", k, delta, kind), t, o));
+            }
+        }
+    }
+    let sw_idx = refdet::sweep_texts(&idx_items, &upd, Mode::Semantic);
+    require_must(&mut run, &sw_idx, &["assign_update_array_value"], "index-literals");
+    absorb(&mut run, sw_idx, "index-literals");
     let shift: Vec<_> = ds.iter().filter(|d| d.name == "shift_math" || d.name == "solidity_math").cloned().collect();
     let sw2 = refdet::sweep_texts(&items, &shift, Mode::Semantic);
     require_must(&mut run, &sw2, &["shift_math"], "pow2-boundary");
@@ -413,6 +439,22 @@ pub fn c06(tier: Tier) -> i32 {
             }
         }
     }
+    // members of other items with the same names: an interface / abstract base / library that declares a
+    // function or variable of the same name must not influence the verdict
+    for (label, mk) in descs.iter().filter(|(l, _)| l.starts_with("fn:") || l.starts_with("var:uint256")) {
+        let me = mk(0);
+        // the member's name is token 1 for functions, the token before `;` or `=` for variables
+        let name = if label.starts_with("fn:") { me.toks[1].clone() } else { me.toks.iter().rev().skip_while(|t| *t == ";" || t.chars().all(|c| c.is_ascii_digit()) || *t == "=").next().cloned().unwrap_or_default() };
+        if label.starts_with("fn:") {
+            let decl = node("FunctionDefinition", vec![T("function"), crate::synth::P::S(name.clone()), T("("), T(")"), T("external"), T(";")]);
+            let iface = contract_kw(&["interface"], "IBase", vec![], vec![decl]);
+            let c = contract_kw(&["contract"], "C", vec![seq(vec![T("IBase")])], vec![mk(0)]);
+            items.push(item_text(format!("iface-same-name:{}", label), vec![iface.clone(), c.clone()]));
+            items.push(item_text(format!("iface-same-name-after:{}", label), vec![c, iface]));
+            let lib = contract_kw(&["library"], "LBase", vec![], vec![node("FunctionDefinition", vec![T("function"), crate::synth::P::S(name.clone()), T("("), T(")"), T("internal"), C(block(vec![]))])]);
+            items.push(item_text(format!("lib-same-name:{}", label), vec![lib, as_item(&["contract"], "C", vec![mk(0)])]));
+        }
+    }
     let (sw, smp) = items.finish();
     require_must(&mut run, &sw, &["payable_function", "private_constant", "private_vars_leading_underscore", "private_func_leading_underscore", "constructor_order"], "members");
     let sample1 = json!({"label": smp.as_ref().map(|x| x.0.clone()), "text": smp.as_ref().map(|x| x.1.clone())});
@@ -659,6 +701,44 @@ pub fn c07(tier: Tier) -> i32 {
             }
         }
     }
+    // the sender check sits in an expression operand of the very statement whose body holds the call
+    for (gi, guard) in [call(var("isOwner"), vec![msg_sender()]), bin("Equal", "==", 11, 11, 10, var("o"), msg_sender()), var("unrelated")].into_iter().enumerate() {
+        for a in &salts {
+            let ehs: Vec<usize> = a.holes.iter().enumerate().filter(|(_, h)| matches!(h, H::E(_))).map(|(i, _)| i).collect();
+            let shs: Vec<usize> = a.holes.iter().enumerate().filter(|(_, h)| matches!(h, H::St | H::StClosed | H::Blk)).map(|(i, _)| i).collect();
+            for &eh in &ehs {
+                for &sh in &shs {
+                    let hs: Vec<Frag> = a
+                        .holes
+                        .iter()
+                        .enumerate()
+                        .map(|(i, h)| {
+                            if i == eh {
+                                match h {
+                                    H::E(c) => fit(*c, &guard),
+                                    _ => unreachable!(),
+                                }
+                            } else if i == sh {
+                                expr_stmt(sd_call("selfdestruct", 2))
+                            } else {
+                                match h {
+                                    H::E(c) => fit(*c, &var("zz")),
+                                    H::Simple => simple_expr(var("zz")),
+                                    _ => expr_stmt(var("zz")),
+                                }
+                            }
+                        })
+                        .collect();
+                    let st = (a.build)(&hs);
+                    for vis in ["external", "public"] {
+                        let f = in_c(sd_function("function", vis, "", vec![st.clone()]));
+                        let (t, o) = render_l1(&f.toks);
+                        items.push((format!("sd:guard-in-operand:{}:{}[{}/{}]:{}", gi, a.name, eh, sh, vis), t, o));
+                    }
+                }
+            }
+        }
+    }
     let sw2 = refdet::sweep_texts(&items, &sd, Mode::Semantic);
     require_must(&mut run, &sw2, &["unprotected_selfdestruct"], "selfdestruct-matrix");
     let sample_sd = json!({"label": items[items.len() / 2].0, "text": items[items.len() / 2].1});
@@ -715,6 +795,23 @@ pub fn c07(tier: Tier) -> i32 {
     let sw4 = refdet::sweep_texts(&items4, &fp, Mode::Semantic);
     require_must(&mut run, &sw4, &["floating_pragma"], "pragma-values");
     absorb(&mut run, sw4, "pragma-values");
+    // ---- the same detectors through analyze_dir, with spaced member accesses and directives
+    {
+        let mut texts: Vec<(String, String)> = Vec::new();
+        for (n, dot) in [("tight", "."), ("blank", " . "), ("newline", "\n      .\n      "), ("dot-newline", ".\n      "), ("comment", "./* c */"), ("newline-dot", "\n      .")] {
+            for member in ["transfer", "transferFrom", "approve", "safeTransfer"] {
+                texts.push((
+                    format!("member:{}:{}", n, member),
+                    format!("pragma solidity ^0.8.0;\ncontract C {{\n  function f(address t, uint256 a) public {{\n    IERC20(t){}{}(t, a);\n    uint256 r = a / 2 * 3;\n  }}\n  function k() external {{ selfdestruct(payable(address(0))); }}\n  function s() external {{ suicide(payable(address(0))); }}\n}}\n", dot, member),
+                ));
+            }
+        }
+        let (dvs, dn) = crate::fsx::dir_equals_file(&texts, (&[], C07_DETS, &[]));
+        run.merge_violations(dvs);
+        run.add("states", dn);
+        run.add("transitions", dn * 2);
+        run.set("directory_level_spellings", dn);
+    }
     finish(
         run,
         "states = programs: Σ (erc20 / division / pragma atoms in every hole) + selfdestruct matrix (function kind x visibility x modifier name x 11 guard forms x 6 payout forms x callee; guard after the call / in another function; the call in every statement hole and every expression hole of every statement) + all {*,/,+} trees with <= 3 (4) operators with and without redundant parentheses as right-hand side of =, /=, *= + pragma values x unrelated pragmas x positions; oracle = reference detectors 8.17–8.20 (three-valued); non-trivial = distinct (detector, reported set) outcomes",
@@ -1052,7 +1149,7 @@ pub fn c09(tier: Tier) -> i32 {
     for (i, s) in strings.iter().enumerate() {
         body.push_str(&format!("require ( c{} , \"{}\" ) ; ", i, s));
     }
-    body.push_str("require ( c ) ; require ( \"first\" , c ) ; assert ( c ) ; other ( c , \"");
+    body.push_str("require ( \"only-argument\" ) ; require ( c ) ; require ( \"first\" , c ) ; assert ( c ) ; other ( c , \"");
     body.push_str(&"y".repeat(40));
     body.push_str("\" ) ; r = a . add ( b ) ; r = a . sub ( b ) . mul ( d ) ; r = a . div ( b ) ; r = a . mod ( b ) ; r = add ( a , b ) ;");
     let bodies: Vec<(&str, String)> = vec![
@@ -1145,6 +1242,31 @@ pub fn c09(tier: Tier) -> i32 {
     let sw2 = refdet::sweep_texts(&items2, &ds, Mode::Semantic);
     require_must(&mut run, &sw2, C09_DETS, "every-hole");
     absorb(&mut run, sw2, "every-hole");
+    // ---- the same verdicts through analyze_dir, with unusual but valid spellings of the directives
+    {
+        let mut texts: Vec<(String, String)> = Vec::new();
+        let b = "contract C {\n  using SafeMath for uint256;\n  function f(uint256 a, bool c) public {\n    require(c, \"this revert string is longer than thirty-two bytes\");\n    require(c, \"short\");\n    a.add(1);\n  }\n}\n";
+        for ver in ["0.7.6", "0.8.0", "0.8.3", "0.8.4", "0.8.19"] {
+            for spelling in [
+                "pragma solidity VER;\n",
+                "pragma /* compiler */ solidity VER;\n",
+                "pragma/**/solidity >=VER;\n",
+                "pragma // c\nsolidity VER;\n",
+                "pragma\tsolidity\t^VER ;\n",
+                "pragma\r\nsolidity\r\n=VER\r\n;\r\n",
+                "\n\n  pragma solidity VER;",
+                "/* pragma solidity 0.4.0; */ pragma solidity VER; // pragma solidity 0.9.9;\n",
+            ] {
+                texts.push((format!("{}@{}", spelling.escape_debug(), ver), format!("{}{}", spelling.replace("VER", ver), b)));
+                texts.push((format!("after:{}@{}", spelling.escape_debug(), ver), format!("{}{}", b, spelling.replace("VER", ver))));
+            }
+        }
+        let (dvs, dn) = crate::fsx::dir_equals_file(&texts, (C09_DETS, &[], &[]));
+        run.merge_violations(dvs);
+        run.add("states", dn);
+        run.add("transitions", dn * 2);
+        run.set("directory_level_spellings", dn);
+    }
     finish(
         run,
         "states = files: every version triple {0,1} x {0..20} x {0..40} (quick: 10 patch values, product thinned away from the thresholds) x 11 operator spellings x 6 placements of unrelated pragmas / of the solidity pragma x 3 bodies (SafeMath attached at contract level / file level / not attached) holding add/sub/mul/div call sites and require strings of 0,1,31,32,33,64 bytes and 16 two-byte characters, require without string and with a non-final string; plus SafeMath calls and require strings in every syntactic hole for versions 0.7.6/0.8.0/0.8.3/0.8.4; oracle = thresholds 0.8.0 and 0.8.4 on the (major, minor, patch) triple printed by the harness; non-trivial = distinct (detector, reported set) outcomes",
